@@ -1478,6 +1478,10 @@ class Parallel(Logger):
         batch_size = self._get_batch_size()
 
         with self._lock:
+            if self._aborting:
+                # A failure was registered since the test above: do not take
+                # any more items from the input.
+                return False
             # to ensure an even distribution of the workload between workers,
             # we look ahead in the original iterators more than batch_size
             # tasks - However, we keep consuming only one batch at each
